@@ -266,8 +266,13 @@ def run(ctx, R, tier):
         hcfg = ctx.cfg(h)
         prop = h.params[1]
         calls = [c for c, _ in ctx.cg.calls_of(h) if isinstance(c.func, ast.Attribute) and c.func.attr == fn_attr]
-        if len(calls) != 1:
+        if len(calls) > 1:
             raise AnalysisError("%s: expected one %s call" % (qn, fn_attr))
+        R.check(len(calls) == 1, "C02-R2", "%s|accessor-called-directly" % h.name, "the gate runs the accessor of the descriptor it examined (`.%s(obj, ...)`)" % fn_attr, h.loc(),
+                "%s no longer calls the examined descriptor's %s: a getattr()/setattr() on the object instead goes through the object's __getattr__/__setattr__ hooks and whatever "
+                "else the name resolves to at that moment, not through the member whose exposure was just tested" % (h.name, fn_attr))
+        if not calls:
+            continue
         for node in ctx.node_of(h, calls[0]):
             R.check(hcfg.guarded(node, lambda e: edge_has_fact(e, inspect_true({"inspect.isdatadescriptor"}))), "C02-R2",
                     "%s|descriptor-test" % h.name, "the accessor runs only for data descriptors", h.loc(calls[0]),
@@ -328,6 +333,17 @@ def run(ctx, R, tier):
     else:
         R.fail("C02-R3", "metadata-cache|reset-addresses-the-same-key", "_reset_exposed_members builds its key exactly as _get_exposed_members does", rs.loc(),
                "no single key tuple found in one of the two routines (lookup %d, reset %d)" % (len(ckeys), len(rkeys)))
+    # ... and it must be handed the registered object itself: a weak registration stores a weakref.ref in the registry, whose class is not the object's class (shared with C16-R6)
+    from ..report import Rules as _Rules
+    from . import c16 as _c16
+    R16 = _Rules("C16")
+    _c16.run(ctx, R16, tier)
+    shared = [o for o in R16.obs if o.rule == "C16-R6" and o.key.split("|")[1] == "Daemon.resetMetadataCache"]
+    if not shared:
+        R.note("C16-R6 produced no instance for Daemon.resetMetadataCache on this tree (C16 reports why); nothing shared")
+    for o in shared:
+        R.add("C02-R3", "metadata-cache|reset-is-given-the-object|" + o.key.split("|", 2)[2], "resetMetadataCache unwraps the registry value before it resets that object's cache entry "
+              "(otherwise the key is built from weakref.ref and the stale member list stays advertised)", o.ok, o.loc, o.detail)
     stores_c = [n for n in walk_no_nested(m.node) if isinstance(n, ast.Assign) and isinstance(n.targets[0], ast.Subscript) and "cache" in unparse(n.targets[0].value)]
     add_nodes = [n for k_ in adds.values() for c in k_ for n in ctx.node_of(m, c)]
     okp = bool(stores_c) and not any(mcfg.path_exists(mcfg.nodes_for(st), lambda n: n in add_nodes) for st in stores_c)
